@@ -356,6 +356,21 @@ def run_shard(desc, ctx):
                 for make in DEEP_C:
                     name, cfg = rng.choice(CSS_CFGS)
                     mon.check(make(depth_n), name, cfg, 'css:deep-nesting' if dom == 'd1' else 'css:deep-nesting:d2-recursion')
+            # near misses (vmon/stretch.py): long runs of almost-matching text in every place where the formatters and resolvers look at text with a
+            # pattern - in the abbreviation, in wrap text, in the values of a user's snippet table
+            for s in stretch.near_miss_inputs(rng, stretch.MARKUP_RUN_SLOTS, 60 if ctx.tier == 'quick' else 900):
+                name, cfg = rng.choice(MARKUP_CFGS)
+                mon.check(s, name, dict(cfg, maxRepeat=3), 'markup:near-miss-run')
+            for s in stretch.near_miss_inputs(rng, stretch.CSS_RUN_SLOTS, 40 if ctx.tier == 'quick' else 600):
+                name, cfg = rng.choice(CSS_CFGS)
+                mon.check(s, name, cfg, 'css:near-miss-run')
+            for line in stretch.near_miss_inputs(rng, stretch.WRAP_RUN_LINES, 30 if ctx.tier == 'quick' else 400):
+                for ab in ('ul>li*', 'p', 'a', 'div>p*>b'):
+                    mon.check(ab, 'html', {'syntax': rng.choice(['html', 'jsx', 'vue', 'pug', 'haml', 'xsl']), 'text': rng.choice([[line, 'second'], line]), 'maxRepeat': 3},
+                              'markup:near-miss-run:wrap-text')
+            for v in stretch.near_miss_inputs(rng, stretch.SNIPPET_RUN_VALUES, 30 if ctx.tier == 'quick' else 400):
+                mon.check(rng.choice(['zz', 'div>zz', 'zz*2']), 'html', {'snippets': {'zz': v}, 'maxRepeat': 3}, 'markup:near-miss-run:user-snippet')
+                mon.check(rng.choice(['zz', 'p10+zz', 'bd']), 'css', {'type': 'stylesheet', 'snippets': {'zz': v}}, 'css:near-miss-run:user-snippet')
             for i in range(desc['n']):
                 a = rng.choice(SEEDS_M) if rng.random() < 0.5 else gen_abbr.random_abbreviation(rng)
                 for m in mutations(a, MUT_CHARS_M, rng, 12):
